@@ -16,7 +16,7 @@ import (
 	"verif/harness/lib/srv"
 )
 
-const ruleText = "rapid state machine per shard (own name space /tN, own live H.264+AAC streams carrying a per-path marker, own users) against one in-process server with auth enabled: histories of 6..15 steps over {save user (create/update, +-password, +-admin, pull/push from 10 patterns, through POST /api/v1/users or auth.Save), delete user, login (right/wrong password), refresh (good / superseded / access token as refresh)} interleaved with access attempts (credential: good | none | empty | refresh-as-access | superseded | garbage | spoofed internal header; RTSP: good | none | wrong password | stale nonce | Basic | unknown user) x path x entry point {RTSP/TCP play, publish (fresh path or replacing a live stream), path switch, user switch; ws-rtsp play, URL switch, publish, announce-then-play; WSP control+data (own / foreign / other-path channel); HTTP-FLV; ws-flv; HLS playlist; HLS segment; 16 management API calls}. Oracle = reference monitor from the rights saved last (refmodel.Permits); observed = marked media bytes / registry identity / API effect. Both directions asserted. Non-trivial = attempt on a (user, action, path) whose reference decision an earlier update or delete of this history changed, or a mid-session switch, or a publish attempt through a WebSocket session; fingerprint = entry, shape, credential, paths, rights of the users involved, expected decision."
+const ruleText = "rapid state machine per shard (own name space /tN, own live H.264+AAC streams carrying a per-path marker, own users) against one in-process server with auth enabled: histories of 6..15 steps over {save user (create/update, +-password, +-admin, pull/push from 10 patterns, through POST /api/v1/users or auth.Save), delete user, login (right/wrong password), refresh (good / superseded / access token as refresh)} interleaved with access attempts (credential: good | none | empty | refresh-as-access | superseded | garbage | spoofed internal header; RTSP: good | none | wrong password | the password an update replaced | stale nonce | Basic | unknown user) x path x entry point {RTSP/TCP play, publish (fresh path or replacing a live stream), path switch, user switch; ws-rtsp play, URL switch, publish, announce-then-play; WSP control+data (own / foreign / other-path channel); HTTP-FLV; ws-flv; HLS playlist; HLS segment; 16 management API calls}. Oracle = reference monitor from the rights saved last (refmodel.Permits); observed = marked media bytes / registry identity / API effect. Both directions asserted. Non-trivial = attempt on a (user, action, path) whose reference decision an earlier update or delete of this history changed, or a mid-session switch, or a publish attempt through a WebSocket session; fingerprint = entry, shape, credential, paths, rights of the users involved, expected decision."
 
 type hist struct {
 	t     *rapid.T
@@ -51,13 +51,13 @@ func (h *hist) drawRights(label string) string {
 
 func (h *hist) stepSave(u int) {
 	old := h.m.users[u]
-	nu := mUser{Exists: true, Pass: old.Pass}
+	nu := mUser{Exists: true, Pass: old.Pass, Prev: old.Prev}
 	nu.Pull, nu.Push = h.drawRights("pull"), h.drawRights("push")
 	nu.Admin = rapid.IntRange(0, 5).Draw(h.t, "admin") == 0
 	withPass := !old.Exists || rapid.Bool().Draw(h.t, "withPassword")
 	if withPass {
 		h.m.passN++
-		nu.Pass = fmt.Sprintf("pw-%d-%d", u, h.m.passN)
+		nu.Prev, nu.Pass = old.Pass, fmt.Sprintf("pw-%d-%d", u, h.m.passN)
 	}
 	via := rapid.SampledFrom([]string{"api", "api", "direct"}).Draw(h.t, "via")
 	h.note(map[string]any{"op": "save", "user": h.names[u], "pull": nu.Pull, "push": nu.Push, "admin": nu.Admin, "with_password": withPass, "via": via})
@@ -102,7 +102,12 @@ func (h *hist) stepLogin(u int) {
 	wrong := rapid.IntRange(0, 3).Draw(h.t, "wrongPassword") == 0
 	pass := x.Pass
 	if wrong || pass == "" {
-		pass += "-wrong"
+		if x.Prev != "" && x.Prev != x.Pass && rapid.Bool().Draw(h.t, "oldPassword") {
+			pass = x.Prev // the password an update replaced
+			evid.Class("login:old-password")
+		} else {
+			pass += "-wrong"
+		}
 	}
 	h.note(map[string]any{"op": "login", "user": h.names[u], "wrong_password": wrong})
 	st, tp := h.sh.login(h.names[u], pass)
@@ -207,7 +212,7 @@ type attempt struct {
 }
 
 var httpCreds = []string{"good", "good", "good", "good", "good", "none", "empty", "refresh", "superseded", "garbage", "spoof"}
-var rtspCreds = []string{"good", "good", "good", "good", "good", "none", "wrongpw", "stalenonce", "basic", "ghost"}
+var rtspCreds = []string{"good", "good", "good", "good", "good", "good", "none", "wrongpw", "oldpw", "oldpw", "stalenonce", "basic", "ghost"}
 
 // httpCredFor materialises a credential kind for user u. valid reports whether
 // the reference treats the caller as authenticated as u.
@@ -245,6 +250,13 @@ func (h *hist) rtspAuthFor(kind string, u int) (rtspAuth, bool) {
 	a := rtspAuth{Kind: kind, Name: h.names[u], Pass: x.Pass}
 	if a.Pass == "" {
 		a.Pass = "never-saved"
+	}
+	if kind == "oldpw" { // the password an update replaced (else any wrong one)
+		if x.Prev != "" && x.Prev != x.Pass {
+			a.Pass = x.Prev
+		} else {
+			a.Kind = "wrongpw"
+		}
 	}
 	return a, kind == "good" && x.Exists
 }
@@ -355,9 +367,19 @@ func (h *hist) attemptHTTPMedia(entry string) {
 			if !o.Served {
 				h.fail("over-refusal-media", "hls-playlist: %s holds the pull right %q on %s and was refused the playlist: status %d %s", h.names[u], h.m.users[u].Pull, path, o.Status, o.Note)
 			}
-			// every segment the playlist names, with the URI exactly as listed
+			// every segment the playlist names, with the URI exactly as listed; when the
+			// window moved meanwhile (404), the playlist is fetched again
+			deadline := time.Now().Add(serveBound)
+		again:
 			for _, uri := range uris {
 				so := h.sh.hlsSegmentListed(uri)
+				if so.Status == 404 && time.Now().Before(deadline) {
+					time.Sleep(time.Millisecond)
+					if o2, uris2 := h.sh.hlsPlaylist(path, cred); o2.Served {
+						uris = uris2
+						goto again
+					}
+				}
 				evid.Eval(1)
 				evid.Class("entry:hls-segment-from-own-playlist")
 				if !so.Served || !so.sawMarker(path) {
@@ -368,13 +390,11 @@ func (h *hist) attemptHTTPMedia(entry string) {
 		}
 		return
 	case "hls-segment":
-		uris := h.sh.segmentURIs(path)
-		if len(uris) == 0 {
+		a.Shape = "listed-uri"
+		o, _ = h.sh.hlsSegmentNow(path, rapid.IntRange(0, 2).Draw(h.t, "segmentAge"), cred)
+		if strings.HasPrefix(o.Note, "machinery") {
 			h.machinery("no HLS segments on %s", path)
 		}
-		uri := rapid.SampledFrom(uris).Draw(h.t, "segment")
-		a.Shape = "listed-uri"
-		o = h.sh.hlsSegment(uri, cred)
 	}
 	h.record(a)
 	h.judgeMedia(a, o, u, valid, allow, path)
@@ -394,6 +414,7 @@ func (h *hist) attemptRTSP() {
 	u := h.pickUser()
 	kind := rapid.SampledFrom(rtspCreds).Draw(h.t, "cred")
 	au, valid := h.rtspAuthFor(kind, u)
+	kind = au.Kind
 	shape := rapid.SampledFrom([]string{"play", "play", "publish", "publish", "switch-path", "switch-path", "switch-user", "announce-then-play", "describe-then-publish"}).Draw(h.t, "shape")
 	a := &attempt{Entry: "rtsp-tcp", Shape: shape, Cred: kind, User: u, User2: u}
 	all := append(append([]string{}, h.sh.live...), h.sh.fresh...)
@@ -814,11 +835,7 @@ func (h *hist) focusedPull(entry string, u int, path string) {
 				o.Markers = []string{path}
 			}
 		case "hls-segment":
-			uris := h.sh.segmentURIs(path)
-			if len(uris) == 0 {
-				h.machinery("no HLS segments on %s", path)
-			}
-			o = h.sh.hlsSegment(uris[len(uris)-1], cred)
+			o, _ = h.sh.hlsSegmentNow(path, 0, cred)
 		}
 		h.record(a)
 		h.judgeMedia(a, o, u, valid, allow, path)
@@ -907,32 +924,36 @@ func (h *hist) run() {
 	h.stepSave(0)
 	h.stepSave(1)
 	for i := 2; i < n; i++ {
-		switch k := rapid.IntRange(0, 99).Draw(h.t, "step"); {
-		case k < 16:
-			h.stepSave(rapid.IntRange(0, nUsers-1).Draw(h.t, "saveUser"))
-		case k < 21:
-			h.stepDelete(rapid.IntRange(0, nUsers-1).Draw(h.t, "deleteUser"))
-		case k < 26:
-			h.stepLogin(rapid.IntRange(0, nUsers-1).Draw(h.t, "loginUser"))
-		case k < 31:
-			h.stepRefresh(rapid.IntRange(0, nUsers-1).Draw(h.t, "refreshUser"))
-		case k < 46:
+		// rapid favours the front of a SampledFrom list: the order is part of the
+		// weighting; the class histogram in the evidence file shows the result
+		switch rapid.SampledFrom(stepKinds).Draw(h.t, "step") {
+		case "focused":
 			if !h.attemptFocused() {
 				h.attemptRTSP()
 			}
-		case k < 58:
+		case "rtsp":
 			h.attemptRTSP()
-		case k < 68:
+		case "http":
+			h.attemptHTTPMedia(rapid.SampledFrom([]string{"hls-segment", "http-flv", "ws-flv", "hls-playlist", "hls-segment"}).Draw(h.t, "entry"))
+		case "ws":
 			h.attemptWsRTSP()
-		case k < 74:
-			h.attemptWSP()
-		case k < 90:
-			h.attemptHTTPMedia(rapid.SampledFrom([]string{"http-flv", "ws-flv", "hls-playlist", "hls-segment", "hls-segment"}).Draw(h.t, "entry"))
-		default:
+		case "api":
 			h.attemptAPI()
+		case "wsp":
+			h.attemptWSP()
+		case "save":
+			h.stepSave(rapid.IntRange(0, nUsers-1).Draw(h.t, "saveUser"))
+		case "delete":
+			h.stepDelete(rapid.IntRange(0, nUsers-1).Draw(h.t, "deleteUser"))
+		case "login":
+			h.stepLogin(rapid.IntRange(0, nUsers-1).Draw(h.t, "loginUser"))
+		case "refresh":
+			h.stepRefresh(rapid.IntRange(0, nUsers-1).Draw(h.t, "refreshUser"))
 		}
 	}
 }
+
+var stepKinds = []string{"focused", "focused", "rtsp", "rtsp", "http", "http", "ws", "ws", "api", "api", "wsp", "save", "save", "save", "delete", "login", "refresh"}
 
 func runShard(t *testing.T, id int, quick, thorough int) {
 	sh := newShard(t, id)
@@ -970,7 +991,7 @@ func shardBase() int {
 	return 10 * (i + 1)
 }
 
-func TestHistoriesA(t *testing.T) { t.Parallel(); runShard(t, shardBase()+1, 800, 10000) }
-func TestHistoriesB(t *testing.T) { t.Parallel(); runShard(t, shardBase()+2, 800, 10000) }
-func TestHistoriesC(t *testing.T) { t.Parallel(); runShard(t, shardBase()+3, 800, 10000) }
-func TestHistoriesD(t *testing.T) { t.Parallel(); runShard(t, shardBase()+4, 800, 10000) }
+func TestHistoriesA(t *testing.T) { t.Parallel(); runShard(t, shardBase()+1, 500, 8000) }
+func TestHistoriesB(t *testing.T) { t.Parallel(); runShard(t, shardBase()+2, 500, 8000) }
+func TestHistoriesC(t *testing.T) { t.Parallel(); runShard(t, shardBase()+3, 500, 8000) }
+func TestHistoriesD(t *testing.T) { t.Parallel(); runShard(t, shardBase()+4, 500, 8000) }
